@@ -573,9 +573,44 @@ theorem sampler_subject_is_source (hw : Words4 (e :: rest)) :
   show handleWith _ env t "PERF_Event" (e :: rest) = _
   rw [handleWith_perf]
 
+/-- **`handle_mach_vmfault`, interpreted, is `hMachVmfault`** — whatever `parser.parse_event_list` means (`nested`):
+    result = END word 2; for result 0 the fault type `DbgVmFaultType(END word 3)` (ValueError outside the enum, before
+    anything else happens), then `nested` on the records of `events[1:-1]` with `0x1320008 <= eventid <= 0x1320014` if
+    there are any; `None` from it leaves pid / protection out, otherwise they are `.pid` / `.caller_prot` of what it
+    returned (`pidProtOf`); an exception of `nested` or of the attribute reads is the handler's (an attribute error after
+    `nested` changed the tables: `.unmodelled`, as in the hand model); `str()` through the translated
+    `MachVmfault.__str__`. -/
+theorem handle_mach_vmfault_ir_eq_model (hw : Words4 (e :: rest)) :
+    runHandler Gen.PyIRCo.mach env nested "MACH_vmfault" t (e :: rest) = hMachVmfault nested env t (e :: rest) := by
+  rw [source_is_expected_ir.2.1]; exact run_vmfault env nested t e rest hw
+
+/-- `vmfault_spec`, `vmfault_ignores_outside`, `vmfault_other_handler` speak about the translated source: their subject
+    `handle env t "MACH_vmfault"` is the interpreted generated handler with `parse_event_list` as the nested call. -/
+theorem vmfault_subject_is_source (hw : Words4 (e :: rest)) :
+    handle env t "MACH_vmfault" (e :: rest) =
+      runHandler Gen.PyIRCo.mach env (parseEventList env) "MACH_vmfault" t (e :: rest) := by
+  rw [handle_mach_vmfault_ir_eq_model env _ t e rest hw, vmfault_nested]
+
 end ir
 
 /-! #### non-vacuity: the generated handlers on concrete windows -/
+
+example : PyIRCo.Words4 vmWin := by decide
+
+/-- the generated `handle_mach_vmfault` on `vmWin`, the nested records decoded by the model's `parse_event_list` (the
+    generated `RealFaultAddressInternal` decoder): pid 22, protection READ | WRITE of the FIRST in-range record -/
+example :
+    (PyIRCo.runHandler Gen.PyIRCo.mach env0 (parseEventList env0) "MACH_vmfault" {} vmWin).toOption.map
+        (fun r => r.1.map (·.text.toOption)) =
+      some (some (some ("MachVmfault, addr: 0x7000, is_kernel: True, result: 0, type: DBG_PAGEIN_FAULT, " ++
+        "vm_prot: VM_PROT_READ | VM_PROT_WRITE, pid: 22"))) := by decide +kernel
+
+/-- … and on `vmWinPurgeable` (first in-range record of a kind without handler): pid / protection omitted -/
+example :
+    (PyIRCo.runHandler Gen.PyIRCo.mach env0 (parseEventList env0) "MACH_vmfault" {} vmWinPurgeable).toOption.map
+        (fun r => r.1.map (·.text.toOption)) =
+      some (some (some "MachVmfault, addr: 0x7000, is_kernel: False, result: 0, type: DBG_ZERO_FILL_FAULT")) := by
+  decide +kernel
 
 example : PyIRCo.Words4 (sampleWin 9) := by decide
 
